@@ -87,6 +87,11 @@ func runChild(scs []*Scenario, slot int, perEpisode time.Duration) []runOut {
 		"GOTRACEBACK=all",
 		"VERIF_EPISODE_WALL="+perEpisode.String(),
 	)
+	if tz := scs[0].Env.TZ; tz != "" {
+		// the process's clock reads another calendar day (the library has no clock seam;
+		// the time zone is the one part of "now" a child process can be given)
+		cmd.Env = append(cmd.Env, "TZ="+tz)
+	}
 	var in bytes.Buffer
 	enc := json.NewEncoder(&in)
 	for _, sc := range scs {
